@@ -174,3 +174,72 @@ def r_config_readonly(ck: Checker, rule: str, names: tuple[str, ...]) -> None:
                     ck.violation(rule, (m.rel, fn.name), x, what, positive=True, construct=f"{fn.name}: {norm(x)[:50]}")
                     return
     ck.holds(rule, ("src/pyoak", "*"), None, what)
+
+
+def r_pruned_walk(ck: Checker, rule: str, funcs: list[tuple[str, str]], why: str) -> None:
+    """A function that has to look at *every* descendant hands no `prune=` callback to dfs/bfs/gather: below a pruned node nothing is
+    visited, whatever the callback tests (positive pattern; `filter=` only hides nodes from the caller and is left to the callers' own rules)."""
+    for modname, qual in funcs:
+        f = ck.repo.func(modname, qual)
+        what = f"{qual}: the walk over the descendants is not cut short by a prune callback ({why})"
+        bad = None
+        for n in [x for fn in (f.raw, f.node) if fn is not None for x in ast.walk(fn)]:
+            if isinstance(n, ast.Call) and isinstance(n.func, ast.Attribute) and n.func.attr in ("dfs", "bfs", "gather"):
+                for k in n.keywords:
+                    if k.arg == "prune" and not (isinstance(k.value, ast.Constant) and k.value.value is None):
+                        bad = (n, f"{norm(n.func)}(prune={norm(k.value)[:40]})")
+                if n.func.attr in ("dfs", "bfs") and n.args:
+                    bad = (n, f"{norm(n.func)}({norm(n.args[0])[:40]}, ...) passes a positional prune callback")
+        if bad:
+            ck.violation(rule, f, bad[0], what, positive=True, construct=f"{qual}: {bad[1]} — nodes below a pruned node are never looked at")
+        else:
+            ck.holds(rule, f, f.node, what)
+
+
+def r_visited_key(ck: Checker, rule: str, modnames: tuple[str, ...]) -> None:
+    """A visited set / memo consulted for an early answer (`if K in S: return ...` with `S.add(K)` or `S[K] = ...` elsewhere in the function)
+    is keyed by the argument itself.  Positive pattern: K is computed from a parameter by a call, attribute or subscript (get_origin(t),
+    type(x), x.__name__ ...) — two different arguments with the same K get the answer of the first one."""
+    n = 0
+    for modname in modnames:
+        mod_ = ck.repo.mod(modname)
+        for fn in [x for x in ast.walk(mod_.tree) if isinstance(x, ast.FunctionDef)]:  # (as written, helpers of later origin included)
+            f = (mod_.rel, fn.name)
+            params = {a.arg for a in fn.args.args + fn.args.kwonlyargs + fn.args.posonlyargs}
+            marks: list[tuple[str, ast.expr, ast.AST]] = []
+            for c in ast.walk(fn):
+                if isinstance(c, ast.Call) and isinstance(c.func, ast.Attribute) and c.func.attr in ("add", "append") and isinstance(c.func.value, ast.Name) and len(c.args) == 1:
+                    marks.append((c.func.value.id, c.args[0], c))
+                elif isinstance(c, ast.Subscript) and isinstance(c.ctx, ast.Store) and isinstance(c.value, ast.Name):
+                    marks.append((c.value.id, c.slice, c))
+            if not marks:
+                continue
+            for t in ast.walk(fn):
+                if not isinstance(t, ast.If):
+                    continue
+                tests = [t.test] + (list(t.test.values) if isinstance(t.test, ast.BoolOp) else [])
+                for cmp_ in tests:
+                    if not (isinstance(cmp_, ast.Compare) and len(cmp_.ops) == 1 and isinstance(cmp_.ops[0], ast.In) and isinstance(cmp_.comparators[0], ast.Name)):
+                        continue
+                    sname = cmp_.comparators[0].id
+                    if not any(m[0] == sname and norm(m[1]) == norm(cmp_.left) for m in marks):
+                        continue
+                    if not any(isinstance(x, ast.Return) for x in t.body):
+                        continue
+                    key: ast.expr = cmp_.left
+                    if isinstance(key, ast.Name) and key.id not in params:
+                        defs = [st for st in ast.walk(fn) if isinstance(st, ast.Assign) and len(st.targets) == 1 and norm(st.targets[0]) == key.id]
+                        if len(defs) == 1:
+                            key = defs[0].value
+                    n += 1
+                    what = f"{fn.name}: the visited set `{sname}` that short-cuts the answer is keyed by the argument itself"
+                    derived = [x for x in ast.walk(key) if isinstance(x, (ast.Call, ast.Attribute, ast.Subscript))
+                               and any(isinstance(y, ast.Name) and y.id in params for y in ast.walk(x))
+                               and not (isinstance(x, ast.Call) and dotted(x.func) == "id")]
+                    if derived and not (isinstance(key, ast.Call) and dotted(key.func) == "id"):
+                        ck.violation(rule, f, t, what, positive=True,
+                                     construct=f"{fn.name}: `{norm(cmp_)[:40]}` with key {norm(key)[:50]} — different arguments sharing that key get the first one's answer")
+                    else:
+                        ck.holds(rule, f, t, what, key=norm(key)[:40])
+    if n == 0:
+        ck.holds(rule, (modnames[0], "*"), None, f"no visited-set short cut in {', '.join(modnames)}")
